@@ -241,8 +241,60 @@ class EncPart(Part):
         return "1"
 
 
+    dec_engine = "dec3"
+
+    def batch_oracle(self, cases, impl, verdicts):
+        """C01/C09 "decoding those bytes returns a value equal to the original": the bytes the CRATE produced
+        for a packet (no outbound limit, problem information allowed) are decoded by the validated decoder
+        model (through the extracted driver); the dump must be the packet that was encoded"""
+        import common as C
+        todo = []          # (case index, op index, expected dump text, dec case)
+        for ci, (c, o, v) in enumerate(zip(cases, impl, verdicts)):
+            if not v.startswith("1") or o in ("97", "96") or "9999" in o.split(";"):
+                continue
+            cs = c.split(";")
+            cfg = cs[0].split(",") if cs[0] else ["0"]
+            if any(x not in ("0", "") for x in cfg[:2]):
+                continue                      # a limit / no-problem-info in force: fields may be dropped
+            for oi, (op, f) in enumerate(zip(cs[1:], o.split(";"))):
+                h = f.split(",")
+                if h[0] != "0" or not op:
+                    continue
+                opf = op.split(",")
+                data = ",".join(h[2:])
+                if opf[0] == "1":
+                    todo.append((ci, oi, ",".join(opf[1:]), "0,0;;" + data, "1"))
+                elif opf[0] == "2" and opf[1] == "1":
+                    todo.append((ci, oi, ",".join(opf[2:]), "0,0;;" + data, "2"))
+                if len(todo) > 60000:
+                    break
+        if not todo:
+            return verdicts
+        dec = C.run_model(self.dec_engine, [t[3] for t in todo])
+        verdicts = list(verdicts)
+        for (ci, oi, want, _, kind), got in zip(todo, dec):
+            first = got.split(";")[0].split(",")
+            if first[0] != kind:
+                verdicts[ci] = "0,9,%d" % oi
+                continue
+            body = ",".join(first[2:])
+            if kind == "1":
+                ok = body == want
+            else:
+                # publish: dump followed by payload length and bytes == the op's dump + payload
+                w = want.split(",")
+                ok = body.split(",")[:len(self.publish_dump_prefix(w))] == self.publish_dump_prefix(w)
+            if not ok and verdicts[ci].startswith("1"):
+                verdicts[ci] = "0,9,%d" % oi
+        return verdicts
+
+    def publish_dump_prefix(self, w):
+        return w[:4]
+
+
 class Enc5Part(EncPart):
     v5 = True
+    dec_engine = "dec5"
 
 
 class SimplePart(Part):
@@ -274,6 +326,7 @@ ENC_CLAUSES = {
     "6": "more payload bytes written than declared",
     "7": "a packet was written inside a streamed PUBLISH payload",
     "8": "the frame exceeds the peer's Maximum Packet Size",
+    "9": "the bytes produced for a packet do not decode (validated decoder model) to the packet that was encoded",
 }
 DEC_CLAUSES = {
     "1": "the decoder panicked / overflowed",
